@@ -119,6 +119,9 @@ def replay_one(job):
     except BaseException as e:  # loading a probe program must always work
         res["load_error"] = "%s: %s" % (type(e).__name__, e)
         return res
+    if not late and jid % 5 == 3:
+        p = api_built(p, Program)
+        res["api_built"] = True
     tracer.install()
     outcomes = []
     for call in hist:
@@ -184,6 +187,28 @@ def replay_one(job):
                           "fails": [names[c - 1] for c in sorted(fails)], "late": [names[c - 1] for c in sorted(late)],
                           "ignored": {names[c - 1]: [names[d - 1] for d in sorted(ignored.get(c, ()))] for c in range(1, n + 1)}, "ev": list(EV)}})
     return res
+
+
+def api_built(loaded, Program):
+    """the same program assembled through the API (Program.add_command with plain values, not parser arguments), in the same order: a reference to a
+    command that is already in the program is given as the Command OBJECT, a forward reference as its result name"""
+    from collections import OrderedDict
+
+    p = Program(libraries=("vprobe",))
+
+    def plain(v, refs):
+        if type(v).__name__ in ("Argument", "ListArgument"):
+            v = v.value
+        if isinstance(v, list):
+            return [plain(x, refs) for x in v]
+        if refs and isinstance(v, str) and v in p.commands:
+            return p.commands[v]
+        return v
+
+    for nm, cmd in loaded.commands.items():
+        args = OrderedDict((a.name, plain(a, a.name[0] in "DLN" and a.name != "Null")) for a in cmd.arguments)
+        p.add_command(type(cmd), nm, args, cmd.lineno)
+    return p
 
 
 def _plain_result(cmd):
